@@ -137,7 +137,9 @@ def tlc(module, cfg_text=None, cfg=None, workers=None, simulate=None, depth=None
         i = out.index('Error:')
         res.error = out[i:i + 1500]
     seen = set()
-    for s in _REC.findall(out):
+    # TLC's workers print in a different order on every run: the records are put in a canonical order so that a seed selects the
+    # same cases every time (a check has to be reproducible from (tree, tier, seed))
+    for s in sorted(set(_REC.findall(out))):
         if s in seen:
             continue
         seen.add(s)
